@@ -212,6 +212,9 @@ def read_ahead_fragmenter(repo, f, hier):
         return 'RD' if callee == fp + '.read' else None
     c = SymClient(repo, f, event_of=ev_kind, hierarchy=hier, fresh_of=fresh)
     c.run(empty_state())
+    # the other form -- peek one byte and step back -- reads a single byte and repositions the stream: not this one
+    if any(e.kind == 'fp.seek' or (e.kind == 'fp.read' and e.args == ('1',)) for e, _s in c.log):
+        return None
     entries = [st for ev, st in c.log if ev.kind == 'loop' and ev.line == loop.lineno]
     if not entries:
         return None
@@ -519,6 +522,17 @@ def bytes_fragmenter(repo, hier, rep=None):
                              'a chunk past the end (empty) is produced' if bad[2] > -(-bad[0] // bad[1]) else 'the tail is dropped'))
             elif rep is not None:
                 rep.notes['chunks_count'] = 'number of positions %s = ceil(len / width): decided by folding on the boundary grid' % norm(cn)
+
+        # an index kept by a counter (``i = n; n += 1`` per iteration, from enumerate): AUG_<name>(start, 'Add', 1) at the
+        # k-th iteration is start + k
+        if idx_node is None:
+            for n_ in ast.walk(test):
+                if isinstance(n_, ast.Call) and isinstance(n_.func, ast.Name) and n_.func.id.startswith('AUG_') and len(n_.args) == 3 \
+                        and isinstance(n_.args[0], ast.Constant) and type(n_.args[0].value) is int \
+                        and isinstance(n_.args[1], ast.Constant) and n_.args[1].value == 'Add' \
+                        and isinstance(n_.args[2], ast.Constant) and n_.args[2].value == 1:
+                    idx_node, idx_start = n_, n_.args[0].value
+                    break
 
         def canon(e):
             if idx_node is not None:
